@@ -36,7 +36,7 @@ Proof.
 Qed.
 
 Lemma ct_wrap_mod_pow2 x k : k <= 64 -> (wrap x) mod 2 ^ k = x mod 2 ^ k.
-Proof. intros Hk. unfold wrap. rewrite W_eq. apply ct_mod_mod_pow2; assumption. Qed.
+Proof. intros Hk. rewrite wrap_mod. rewrite W_eq. apply ct_mod_mod_pow2; assumption. Qed.
 
 Lemma ct_land_mask x h : h <= 63 -> and64 x (mask h) = x mod 2 ^ (h + 1).
 Proof. intros Hh. unfold and64. rewrite mask_spec by assumption. apply land_ones_mod. Qed.
@@ -44,14 +44,14 @@ Proof. intros Hh. unfold and64. rewrite mask_spec by assumption. apply land_ones
 Lemma ct_shl_mod x s : s < 64 -> shl x s = (x * 2 ^ s) mod W.
 Proof.
   intros Hs. unfold shl. destruct (N.leb_spec 64 s) as [Hge|Hlt]; [lia|].
-  rewrite N.shiftl_mul_pow2. reflexivity.
+  rewrite N.shiftl_mul_pow2. apply wrap_mod.
 Qed.
 
 Lemma ct_shl_land_mask x s h : s < 64 -> h <= 63 ->
   and64 (shl x s) (mask h) = (x * 2 ^ s) mod 2 ^ (h + 1).
 Proof.
   intros Hs Hh. rewrite ct_land_mask by assumption. rewrite ct_shl_mod by assumption.
-  apply ct_wrap_mod_pow2. lia.
+  rewrite <- wrap_mod. apply ct_wrap_mod_pow2. lia.
 Qed.
 
 Lemma ct_testbit_small x n i : x < 2 ^ n -> n <= i -> N.testbit x i = false.
